@@ -476,6 +476,77 @@ def config_schema() -> list[dict]:
     out.sort(key=lambda e: e["line"])
     for e in out:
         e.pop("line")
+    # ... and, whatever shape the loader's code has (a table of fields, helper functions, comprehensions): what it ASKS a document
+    # for when it loads one - the loader is run on a document that records every table and key it is asked about
+    have = {(e["table"], e["key"]) for e in out}
+    for e in _observed_schema():
+        if (e["table"], e["key"]) not in have:
+            out.append(e)
+            have.add((e["table"], e["key"]))
+    return out
+
+
+def _observed_schema() -> list[dict]:
+    import nauyaca.server.config as C
+
+    seen: list[dict] = []
+
+    class Rec(dict):
+        def __init__(self, table=None):
+            super().__init__()
+            self._table = table
+
+        def _note(self, key, default, has):
+            if self._table is not None and isinstance(key, str):
+                d = default if isinstance(default, (str, int, float, bool, list, type(None))) else None
+                seen.append({"table": self._table, "key": key, "default": d, "has_default": has})
+
+        def get(self, key, default=None):
+            if self._table is None and isinstance(key, str) and (default is None or isinstance(default, dict)):
+                return Rec(key)          # a table of the document
+            self._note(key, default, True)
+            return default
+
+        def __getitem__(self, key):
+            if self._table is None and isinstance(key, str):
+                return Rec(key)
+            self._note(key, None, False)
+            raise KeyError(key)
+
+        def __contains__(self, key):
+            if self._table is not None:
+                self._note(key, None, False)
+            return False
+
+    mod = getattr(C, "tomllib", None)
+    if mod is None or not hasattr(mod, "load"):
+        return []
+    fd, path = tempfile.mkstemp(prefix="nv-schema-", suffix=".toml")
+    os.close(fd)
+    real = mod.load
+
+    class Shim:
+        def __getattr__(self, name):
+            return getattr(mod, name)
+
+        @staticmethod
+        def load(f, *a, **k):
+            return Rec()
+
+    try:
+        C.tomllib = Shim()
+        with contextlib.suppress(BaseException):
+            C.ServerConfig.from_toml(Path(path))
+    finally:
+        C.tomllib = mod
+        with contextlib.suppress(OSError):
+            os.unlink(path)
+    assert mod.load is real
+    out, have = [], set()
+    for e in seen:
+        if (e["table"], e["key"]) not in have:
+            have.add((e["table"], e["key"]))
+            out.append(e)
     return out
 
 
